@@ -330,7 +330,8 @@ def run_c12(tier, seed):
         grid["getrange"] += len(prog) - 1
     # replies with many elements (the element counts the parser pre-allocates for, 1024, and beyond): derived commands that
     # rebuild or reverse an array must keep every element
-    for nbig in ((513, 1025) if tier == "quick" else (513, 1024, 1025, 1500, 2049)):
+    import thresholds as T
+    for nbig in T.extend([513, 1025] if tier == "quick" else [513, 1024, 1025, 1500, 2049], 3, 20000, limit=3):
         zsetup = [("ZADD", [b"zb"] + [x for i in range(lo, min(lo + 200, nbig)) for x in (str(i).encode(), b"m%05d" % i)]) for lo in range(0, nbig, 200)]
         prog = zsetup + [("ZCARD", [b"zb"]), ("ZREVRANGE", [b"zb", b"0", b"-1"]), ("ZREVRANGE", [b"zb", b"0", b"-1", b"WITHSCORES"]), ("ZREVRANGEBYSCORE", [b"zb", b"+inf", b"-inf"]),
                          ("ZREVRANGEBYSCORE", [b"zb", b"+inf", b"-inf", b"WITHSCORES"]), ("ZREVRANGEBYSCORE", [b"zb", b"+inf", b"-inf", b"LIMIT", b"3", str(nbig - 5).encode()])]
